@@ -12,3 +12,6 @@ import PorepyVerif.C39.Props
 #print axioms PorepyVerif.C39.bc_rejects_non_boundary
 #print axioms PorepyVerif.C39.bc_rejects_length_mismatch
 #print axioms PorepyVerif.C39.bc_rejects_unknown_keyword
+#print axioms PorepyVerif.C39.bcv_history_last_assignment
+#print axioms PorepyVerif.C39.bcv_internal_boundary_default
+#print axioms PorepyVerif.C39.internal_to_dirichlet_spec
